@@ -71,6 +71,9 @@ func c13enum(c *Ctx) {
 	nSched := 1 << maxAttempts
 	total := len(c13cfgs) * len(c13levels) * len(seqs) * nSched
 	c.R.Max("enumeration_size", int64(total))
+	if c.To > total {
+		c.To = total
+	}
 	c.R.Max("max_attempts_enumerated", int64(maxAttempts))
 
 	log := mon.NewLog()
